@@ -115,17 +115,29 @@ def chunks(seq, size=None, dfmt="f", byte_order=None, padval=0.):
   chunk = array.array(dfmt, xrange(size))
   idx = 0
 
+  # Arrays are always in native byte order: swap when another one was asked
+  native_is_little = array.array("H", [1]).tobytes()[:1] == b"\x01"
+  swap = byte_order in ((">", "!") if native_is_little else ("<",))
+  def chunk_bytes():
+    if swap:
+      chunk.byteswap()
+      try:
+        return chunk.tobytes()
+      finally:
+        chunk.byteswap()
+    return chunk.tobytes()
+
   for el in seq:
     chunk[idx] = el
     idx += 1
     if idx == size:
-      yield chunk.tobytes()
+      yield chunk_bytes()
       idx = 0
 
   if idx != 0:
     for idx in xrange(idx, size):
       chunk[idx] = padval
-    yield chunk.tobytes()
+    yield chunk_bytes()
 
 
 class RecStream(Stream):
